@@ -58,6 +58,42 @@ func canonical(s string) (uint64, bool) {
 	return v, v != 0
 }
 
+// hexDigits is the reference table of the 22 valid hex characters and their values, spelled out one by one.
+var hexDigits = [22]struct {
+	c byte
+	v uint64
+}{
+	{'0', 0}, {'1', 1}, {'2', 2}, {'3', 3}, {'4', 4}, {'5', 5}, {'6', 6}, {'7', 7}, {'8', 8}, {'9', 9},
+	{'a', 10}, {'b', 11}, {'c', 12}, {'d', 13}, {'e', 14}, {'f', 15},
+	{'A', 10}, {'B', 11}, {'C', 12}, {'D', 13}, {'E', 14}, {'F', 15},
+}
+
+// hexVal looks one byte up in the table: (value, is-hex, is-upper-case-letter).
+func hexVal(c byte) (uint64, bool, bool) {
+	for i, d := range hexDigits {
+		if d.c == c {
+			return d.v, true, i >= 16
+		}
+	}
+	return 0, false, false
+}
+
+// foldedValue: the value the 16 hex digits of s stand for when the case of the letters is ignored. ok = s is 16 bytes
+// of [0-9a-fA-F]. Used only to sub-classify strings the statement rejects (upper case) but the code accepts.
+func foldedValue(s string) (v uint64, ok bool) {
+	if len(s) != 16 {
+		return 0, false
+	}
+	for i := 0; i < 16; i++ {
+		d, isHex, _ := hexVal(s[i])
+		if !isHex {
+			return 0, false
+		}
+		v = v<<4 | d
+	}
+	return v, true
+}
+
 func classOf(s string) string {
 	switch {
 	case len(s) < 16:
@@ -66,14 +102,21 @@ func classOf(s string) string {
 		return "len>16"
 	}
 	allHex, upper, zero := true, false, true
+	ctl, high := false, false
 	for i := 0; i < len(s); i++ {
 		c := s[i]
+		_, isHex, isUp := hexVal(c)
 		switch {
-		case c >= '0' && c <= '9', c >= 'a' && c <= 'f':
-		case c >= 'A' && c <= 'F':
+		case isHex && isUp:
 			upper = true
+		case isHex:
 		default:
 			allHex = false
+			if c < 0x20 {
+				ctl = true
+			} else if c >= 0x80 {
+				high = true
+			}
 		}
 		if c != '0' {
 			zero = false
@@ -86,24 +129,42 @@ func classOf(s string) string {
 		return "uppercase-hex"
 	case allHex:
 		return "lowercase-hex"
+	case ctl:
+		return "non-hex-char/control-byte"
+	case high:
+		return "non-hex-char/high-byte"
 	}
-	return "non-hex-char"
+	return "non-hex-char/printable"
 }
 
-var decodeAPIs = []string{"Decode", "DecodeFromString", "IDFromString", "UnmarshalText", "json.Unmarshal"}
+var decodeAPIs = []string{"Decode", "DecodeFromString", "IDFromString", "UnmarshalText", "Scan", "json.Unmarshal"}
 
 type decRes struct {
 	OK  bool
 	Val uint64
 }
 
-func jsonSafe(s string) bool {
+// jsonLiteral is the JSON string literal that denotes exactly the bytes of s (control bytes, quote and backslash
+// escaped). Bytes >= 0x80 have no such literal here (encoding/json replaces invalid UTF-8): not applicable.
+func jsonLiteral(s string) (string, bool) {
+	var sb strings.Builder
+	sb.WriteByte('"')
 	for i := 0; i < len(s); i++ {
-		if c := s[i]; c < 0x20 || c >= 0x7f || c == '"' || c == '\\' {
-			return false
+		c := s[i]
+		switch {
+		case c >= 0x80:
+			return "", false
+		case c < 0x20:
+			fmt.Fprintf(&sb, `\u%04x`, c)
+		case c == '"' || c == '\\':
+			sb.WriteByte('\\')
+			sb.WriteByte(c)
+		default:
+			sb.WriteByte(c)
 		}
 	}
-	return true
+	sb.WriteByte('"')
+	return sb.String(), true
 }
 
 func decodeVia(api, s string) (r decRes, applicable bool) {
@@ -125,11 +186,14 @@ func decodeVia(api, s string) (r decRes, applicable bool) {
 		}
 	case "UnmarshalText":
 		err = id.UnmarshalText([]byte(s))
+	case "Scan":
+		err = id.Scan(s)
 	case "json.Unmarshal":
-		if !jsonSafe(s) {
+		lit, ok := jsonLiteral(s)
+		if !ok {
 			return decRes{}, false
 		}
-		err = json.Unmarshal([]byte(`"`+s+`"`), &id)
+		err = json.Unmarshal([]byte(lit), &id)
 	}
 	if err != nil {
 		return decRes{}, true
@@ -142,8 +206,12 @@ type vio struct{ Sig, Msg string }
 // judgeDecode: a string is accepted exactly when it is the canonical encoding of a non-zero id, and then yields that id.
 func judgeDecode(s string) (vs []vio, outcome string) {
 	want, isCanon := canonical(s)
+	folded, isHex16 := foldedValue(s)
 	verdict := func(r decRes) string {
 		switch {
+		case r.OK && !isCanon && isHex16 && folded != 0 && r.Val != folded:
+			// a spelling the statement rejects anyway; kept apart from the plain acceptance of upper-case digits
+			return "accepted-noncanonical/" + classOf(s) + "/and-not-the-value-of-its-hex-digits"
 		case r.OK && !isCanon:
 			return "accepted-noncanonical/" + classOf(s)
 		case !r.OK && isCanon:
@@ -182,10 +250,24 @@ func judgeDecode(s string) (vs []vio, outcome string) {
 				got = fmt.Sprintf("accepted as id %#x", r.Val)
 			}
 			exp := "a rejection (not the 16-character lowercase hex encoding of a non-zero id)"
+			if strings.HasSuffix(bad, "/and-not-the-value-of-its-hex-digits") {
+				exp += fmt.Sprintf("; its hex digits read without regard to case stand for %#x", folded)
+			}
 			if isCanon {
 				exp = fmt.Sprintf("id %#x", want)
 			}
 			vs = append(vs, vio{"decode/ID." + api + "/" + bad, fmt.Sprintf("platform.ID.%s(%q) %s; the statement demands %s", api, s, got, exp)})
+		}
+	}
+	// Encode(Decode(s)): whatever non-zero id Decode produced is a valid id, so it must encode to its 16 lower-case hex
+	// digits (= s itself for a canonical s, = lower(s) for an accepted upper-case spelling).
+	if base.OK && base.Val != 0 {
+		var b []byte
+		var err error
+		if p, d := vlib.Guard(func() { b, err = platform.ID(base.Val).Encode() }); p {
+			vs = append(vs, vio{"decode-then-encode/ID.Encode/panic", fmt.Sprintf("Decode(%q) then Encode: %s", s, d)})
+		} else if wantEnc := refEncode(base.Val); err != nil || string(b) != wantEnc {
+			vs = append(vs, vio{"decode-then-encode/ID.Encode/differs", fmt.Sprintf("platform.ID.Decode(%q) gave id %#x whose Encode() = %q, %v; the statement demands %q", s, base.Val, b, err, wantEnc)})
 		}
 	}
 	return
@@ -285,6 +367,80 @@ var baseEncodings = []string{
 	"fedcba9876543210", "7fffffffffffffff", "0a0b0c0d0e0f0a0b", "1000000000000000", "000000000000000f",
 }
 
+// fullBases: 16-byte strings whose whole byte neighbourhood is enumerated. The first 5 are non-zero spellings in lower,
+// upper and mixed case (the latter two are hex but not canonical); the all-zero string's neighbours are the smallest ids.
+var fullBases = []string{
+	"0000000000000001", "ffffffffffffffff", "0123456789abcdef", "FEDCBA9876543210", "0a1B2c3D4e5F6A7b",
+	"0000000000000000", "8000000000000000",
+	// thorough only
+	"FFFFFFFFFFFFFFFF", "fedcba9876543210", "7fffffffffffffff", "000000000000000A", "1000000000000000", "aAbBcCdDeEfF0910",
+}
+
+// pairBytes: bytes substituted at two positions at once: NUL, the control bytes that differ from '0' and '9' in one bit
+// (0x10, 0x19), blank, the ASCII neighbours of the three hex ranges, DEL, the first and last high byte, sign / separator /
+// prefix characters, and a few valid digits of each range (so that a bad byte meets a changed good one).
+var pairBytes = []byte{0x00, 0x10, 0x19, 0x20, '/', ':', '@', 'G', '`', 'g', 0x7f, 0x80, 0xff, '+', '-', '_', 'x', '0', '1', '9', 'a', 'f', 'A', 'F'}
+
+// enumByteFamilies: the full byte domain around each base.
+//
+//	sub1-byte: EVERY byte value 0..255 at EVERY one of the 16 positions;
+//	sub2-byte: every pair of positions x pairBytes x pairBytes;
+//	sub2-all:  (thorough) every pair of byte values 0..255 x 0..255 at 6 position pairs;
+//	len:       every length 0..33 of the repeated base, of its zero-extension to the right / left, of its tail.
+func enumByteFamilies(thorough bool, f func(fam, s string)) {
+	bases, pairBases := fullBases[:7], fullBases[:5]
+	if thorough {
+		bases, pairBases = fullBases, fullBases
+	}
+	for _, b := range bases {
+		for pos := 0; pos < 16; pos++ {
+			for ch := 0; ch < 256; ch++ {
+				e := []byte(b)
+				e[pos] = byte(ch)
+				f("sub1-byte", string(e))
+			}
+		}
+	}
+	zeros := strings.Repeat("0", 34)
+	for _, b := range bases {
+		for n := 0; n <= 33; n++ {
+			f("len", (b + b + b)[:n])
+			f("len", (b + zeros)[:n])
+			if n >= 16 {
+				f("len", zeros[:n-16]+b)
+			} else {
+				f("len", b[16-n:])
+			}
+		}
+	}
+	for _, b := range pairBases {
+		for i := 0; i < 16; i++ {
+			for j := i + 1; j < 16; j++ {
+				for _, c1 := range pairBytes {
+					for _, c2 := range pairBytes {
+						e := []byte(b)
+						e[i], e[j] = c1, c2
+						f("sub2-byte", string(e))
+					}
+				}
+			}
+		}
+	}
+	if thorough {
+		for _, b := range fullBases[:5] {
+			for _, p := range [][2]int{{0, 1}, {7, 8}, {14, 15}, {0, 15}, {0, 8}, {3, 12}} {
+				for c1 := 0; c1 < 256; c1++ {
+					for c2 := 0; c2 < 256; c2++ {
+						e := []byte(b)
+						e[p[0]], e[p[1]] = byte(c1), byte(c2)
+						f("sub2-all", string(e))
+					}
+				}
+			}
+		}
+	}
+}
+
 // enumStrings calls f for every string of the family in a fixed order (simplest first).
 func enumStrings(thorough bool, f func(fam, s string)) {
 	S := sigmaSet()
@@ -333,6 +489,7 @@ func enumStrings(thorough bool, f func(fam, s string)) {
 			f("shape", x)
 		}
 	}
+	enumByteFamilies(thorough, f)
 	// double substitutions
 	pairs := [][2]int{{0, 1}, {7, 8}, {14, 15}, {0, 15}}
 	nb := 2
@@ -836,11 +993,12 @@ func replay(t *testing.T, cs Case) (bool, string) {
 func TestCheck(t *testing.T) {
 	vlib.Main(t, &vlib.Check{
 		ID: "C31", Level: "model_checking",
-		Rule: "(1) Encode/Decode: ~700 boundary ids (1, 2^k-1, 2^k, 2^k+1, MaxUint64, every nibble value at every position on all-0 and all-f backgrounds) through Encode/String/MarshalText/json and back through 5 decode entry points; strings: all strings of length <=3 over a 40-byte alphabet (hex digits of both cases, the ASCII neighbours of the hex ranges / : @ G ` g, + - _ x X blank . NL TAB NUL DEL 0xff), and for 7 (thorough 12) base encodings every single substitution, deletion (len 15) and insertion (len 17) over that alphabet, prefix/shape variants, and double substitutions (quick: 4 position pairs x 2 bases; thorough: all 120 pairs x 3 bases); oracle = accepted iff 16 chars of [0-9a-f] and not all zero, value = positional hex. non-trivial = strings of length 16 and all ids. " +
+		Rule: "(1) Encode/Decode: ~700 boundary ids (1, 2^k-1, 2^k, 2^k+1, MaxUint64, every nibble value at every position on all-0 and all-f backgrounds) through Encode/String/MarshalText/json and back through 6 decode entry points (Decode, DecodeFromString, IDFromString, UnmarshalText, Scan(string), json.Unmarshal of the exact JSON literal); strings: all strings of length <=3 over a 40-byte alphabet (hex digits of both cases, the ASCII neighbours of the hex ranges / : @ G ` g, + - _ x X blank . NL TAB NUL DEL 0xff), and for 7 (thorough 12) base encodings every single substitution, deletion (len 15) and insertion (len 17) over that alphabet, prefix/shape variants, and double substitutions (quick: 4 position pairs x 2 bases; thorough: all 120 pairs x 3 bases); FULL BYTE DOMAIN: for 7 (thorough 13) 16-byte bases in lower, upper and mixed case (0000000000000001, ffffffffffffffff, 0123456789abcdef, FEDCBA9876543210, 0a1B2c3D4e5F6A7b, all-zero, 8000000000000000, ...) EVERY byte value 0..255 at EVERY one of the 16 positions (4096 per base); for 5 (thorough 13) bases every one of the 120 position pairs x 24x24 bytes {NUL 0x10 0x19 blank / : @ G ` g DEL 0x80 0xff + - _ x 0 1 9 a f A F}; thorough: every byte pair 0..255 x 0..255 at 6 position pairs x 5 bases; every length 0..33 of the repeated base, its right/left zero-extension and its tail. Oracle (byte-by-byte table of the 22 hex characters) = accepted iff 16 chars of [0-9a-f] and not all zero, value = positional hex; every non-zero id Decode yields must Encode to its 16 lower-case digits; an accepted upper/mixed-case spelling (reported, the statement rejects it) is additionally classed apart when its value is not that of its digits. non-trivial = strings of length 16 and all ids. " +
 			"(2) generators sequentially, real snowflake.IDGenerator.ID / pkg/snowflake.Generator.Next on the fake clock of a synctest bubble: every op sequence of length <=7 (thorough <=10) over {call, clock +1ms, clock -1ms} x start sequence {fresh, 0, 4094, 4095 reached by real calls on the frozen clock} x machine id {0,1023} x both APIs, plus 5000/10000 calls on a frozen clock, around a step back, and at the epoch instant; " +
 			"(3) schedules: pkg/snowflake/gen.go compiled against the modelled sync/atomic; 2 threads x 2 calls (also with a 1ms clock tick between/before a thread's calls, taken while the other threads are frozen in the middle of their call) and 3 threads x 2 calls, start sequence {fresh,0,4094,4095} x generator's remembered millisecond {same as, 1ms behind, 1ms ahead of (= clock stepped back)} the clock, machine {1023,0}; every interleaving at atomic-operation granularity with <= B preemptions (2 threads: B=4 quick / 6 thorough; 3 threads: B=3 / 4; thorough adds 2 threads x 3 calls, a 3-call thread against a ticking thread, and 4 threads x 2 calls with B=3). Oracle for (2),(3): every id handed out (warm-up ids included) is non-zero and all are pairwise distinct. states = decision nodes of the schedule trees, transitions = scheduling steps, traces = executions",
 		Assumptions: []string{
-			"the 2^64 id space and arbitrary strings are covered only by the stated boundary / edit-neighbourhood families (the decoder is length check + table-driven hex parse + zero check)",
+			"the 2^64 id space and arbitrary strings are covered only by the stated boundary / edit-neighbourhood families: all 256 byte values at one position, a 24-byte set at two positions (all 256x256 at 6 position pairs in thorough), lengths 0..33; three or more simultaneous non-alphabet bytes only over the 40-byte alphabet of the short strings (the decoder treats positions independently: length check + per-digit hex parse + zero check)",
+			"json.Unmarshal is driven with the JSON literal that denotes exactly the input bytes (\\u00XX escapes for control bytes); inputs with bytes >= 0x80 are not applicable to that entry point",
 			"the clock stays inside the generator's 42-bit millisecond range (2017-04-09 .. 2156); wrap-around of the time field is not examined",
 			"a clock that steps back is presented by carrying the generator's state word (its only memory) into a bubble whose clock is earlier, through an add-only accessor; the synctest clock itself never goes backwards",
 			"the warm-up calls that reach a start sequence number are made for real once per start configuration (own bubble, frozen fake clock, deterministic); executions restore the resulting state word through the same accessor and are checked against the warm-up ids",
@@ -882,6 +1040,7 @@ func TestCheck(t *testing.T) {
 				if len(s) == 16 {
 					c.Nontrivial("d:" + s)
 				}
+				c.Extra("decode_cases/"+fam, 1)
 				c.Outcome(out)
 				report(vs, Case{Kind: "decode", StrHex: hex.EncodeToString([]byte(s)), Str: fmt.Sprintf("%q", s)})
 			})
